@@ -116,6 +116,14 @@ def s_big(rng):
              [["for", "j", ["range", 0, nj, None],
                [["place", "l", "small-lamp", ["b", "*", ["v", "i"], ["n", 2]], ["b", "+", ["n", 20], ["b", "*", ["v", "j"], ["n", 2]]], None],
                 ["set", "l", "enable", ["c", ">", ["v", "a"], ["b", "+", ["v", "i"], ["v", "j"]]]]]]]]]
+    if rng.random() < 0.7:
+        # a second, separate circuit (its own input) and a few unconnected entities: several connected components
+        prog.insert(1, ["input", "b", types.fresh(), 7])
+        prog.append(["for", "k", ["range", 0, rng.randint(3, 12), None],
+                     [["place", "m", "small-lamp", ["b", "*", ["v", "k"], ["n", 2]], ["n", 10], None],
+                      ["set", "m", "enable", ["c", "<", ["v", "b"], ["v", "k"]]]]])
+        for q in range(rng.randint(1, 3)):
+            prog.append(["place", "c%d" % q, rng.choice(["steel-chest", "wooden-chest"]), ["n", -6 - 2 * q], ["n", 10], None])
     return _mk(prog, "above_500_entities", rng, poles=None, schedule=["first", rng.randrange(1 << 30)])
 
 
